@@ -33,6 +33,10 @@ def flat(hs):
     return out
 
 
+# real sockets / real time: a verdict must persist when the case is re-run on its own (2 of 3)
+RETRY_PREFIX = "*"
+
+
 def gen_cases(rng, ctx):
     thorough = ctx["tier"] == "thorough" or ctx.get("widened")
     cases = []
@@ -85,6 +89,11 @@ def gen_cases(rng, ctx):
                     hs.append(("x-ping", b"1"))
                 toks = [[ch, http2, 1, 1, 1, rng.below(2), 0], [6], list(path.encode()), flat(hs), []]
                 wrap(18, n2, toks, "service:channel%d-h%d-%s" % (ch, 2 if http2 else 1, path), names2)
+    # what TlsDemux::select returns is logged with {:?}: an SNI carrying a credentials label
+    for i in range(20 if thorough else 6):
+        label = ("SNILABEL-%06x-canary" % rng.below(1 << 24)).encode()
+        sni = label + b".localhost"
+        wrap(5, [label], [list(sni)], "tls:connection-meta-debug", ["SNI credentials label"])
     # the scrubbing functions against the model
     NAMES = ["authorization", "proxy-authorization", "cookie", "accept", "x-auth", "cookie2", "set-cookie", "host"]
     for i in range(300 if thorough else 80):
